@@ -392,6 +392,11 @@ def run(ctx):
     # the recorded times (not the requested ones) are what a saved trajectory carries
     from . import c12
     c12.rule_traj(ctx, ctx.py, "C09.TRAJ")
+    # shared clause: the status `is_complete()` reports belongs to the current set-up (C10.RESET): a driver loop on it records
+    # the samples of this run, not none because the previous run had finished
+    from ..core import borrow
+    from . import c10
+    borrow(ctx, "C09", c10.rule_reset, ctx.py)
     from .. import lints
     lints.run(ctx, "C09", ctx.py, ["rdscript", "librdengine"])
     ctx.assume("which step covers which requested time, interval boundaries and the number of steps performed are "
